@@ -193,7 +193,8 @@ func main() {
 	r.Assume("linearizability is judged by porcupine against the set model: an AddTriples batch is one atomic operation, each removed triple its own operation inside the call's interval, a lookup one operation returning its whole result")
 
 	var reports []scenReport
-	totalExec, totalSteps, totalHB, totalOutcomes := 0, int64(0), 0, 0
+	totalExec, totalSteps, totalHB, totalOutcomes, historyChecked := 0, int64(0), 0, 0, 0
+	var samples []map[string]interface{}
 	shards := 8
 	budget := time.Duration(r.Pick(100, 780)) * time.Second
 	startAll := time.Now()
@@ -252,6 +253,10 @@ func main() {
 		}
 		reports = append(reports, sr)
 		totalExec += m.Executions
+		historyChecked += m.Statuses["ok"]
+		if len(samples) < 4 && m.SampleTrace != "" && mode == string(explore.SleepSets) {
+			samples = append(samples, map[string]interface{}{"variant": p.variant, "mode": mode, "sample_op_trace": m.SampleTrace})
+		}
 		totalSteps += m.TotalSteps
 		totalHB += m.DistinctHB
 		totalOutcomes += len(m.Outcomes)
@@ -364,6 +369,9 @@ func main() {
 			comp[p.variant] = "not run: " + rep.Err
 			continue
 		}
+		if rep.Harness > 0 {
+			common.Machinery("the harness of %s races with itself under -race (%d accesses in package main)", p.variant, rep.Harness)
+		}
 		if len(rep.Races) == 0 {
 			clean++
 			comp[p.variant] = fmt.Sprintf("%d free runs, no race reported", rep.Runs)
@@ -378,14 +386,11 @@ func main() {
 	r.Set("race_companion_clean_variants", clean)
 
 	r.Set("scenarios", reports)
-	r.Set("executions", totalExec)
-	r.Set("schedules", totalExec)
-	r.Set("transitions", int(totalSteps))
-	r.Set("traces_validated_against_impl", totalExec)
-	r.Set("distinct_partial_orders", totalHB)
+	r.Set("schedules", totalExec)                          // complete executions evaluated
+	r.Set("transitions", int(totalSteps))                  // scheduled operations over all of them
+	r.Set("traces_validated_against_impl", historyChecked) // executions that ended normally and whose recorded history went through the model oracle
+	r.Set("states", totalHB)                               // distinct happens-before partial orders of the op traces (per variant and mode, summed)
 	r.Set("distinct_outcomes", totalOutcomes)
-	r.Set("evaluations", totalExec)
-	r.Set("states", totalHB)
 	if minBound == 1<<30 {
 		minBound = -1
 	}
@@ -398,7 +403,10 @@ func main() {
 			r.Set("instrumentation_inventory", inv)
 		}
 	}
-	r.Sample(map[string]interface{}{"variant": "S1/cap0", "threads": "root, add{t0,t1}, lookup TriplesForSubject + consumer, exist(t0)"})
+	r.Sample(map[string]interface{}{"variant": "S1/cap0", "threads": "root, add{t0,t1}, lookup TriplesForSubject + consumer, exist(t0)", "event": "t<thread>:<op>#<object>/<alternative>"})
+	for _, sm := range samples {
+		r.Sample(sm)
+	}
 	for _, sr := range reports {
 		st, _ := json.Marshal(sr.Statuses)
 		fmt.Printf("  %-9s %-9s exhaustive=%-5v bound=%2d executions=%-7d partial-orders=%-7d outcomes=%-4d max-steps=%-3d threads=%d pruned=%d %s %v %v\n",
@@ -432,6 +440,7 @@ func instrumented() bool {
 // ---- free-running companion -------------------------------------------------------------------------
 
 type compReport struct {
+	Harness int
 	Shape   string
 	Runs    int
 	Races   []string
@@ -443,7 +452,41 @@ var lookupFn = regexp.MustCompile(`^memory\.\(\*memory\)\.(Objects|Subjects|Pred
 
 var fatalRe = regexp.MustCompile(`(?m)^fatal error: (.*)$`)
 
-var raceSite = regexp.MustCompile(`(?m)^(?:Previous )?(?:[Ww]rite|[Rr]ead) at 0x[0-9a-f]+ by goroutine \d+:\n\s+(\S+)\(`)
+var accessHdr = regexp.MustCompile(`^(?:Previous )?(?:[Ww]rite|[Rr]ead) at 0x[0-9a-f]+ by `)
+
+// raceSites returns, for every access of every race report, the innermost
+// frame that is not the Go runtime or the vsched runtime.
+func raceSites(stderr string) []string {
+	var out []string
+	lines := strings.Split(stderr, "\n")
+	for i := 0; i < len(lines); i++ {
+		if !accessHdr.MatchString(lines[i]) {
+			continue
+		}
+		for j := i + 1; j < len(lines) && strings.TrimSpace(lines[j]) != ""; j++ {
+			l := lines[j]
+			if !strings.HasPrefix(l, "  ") || strings.HasPrefix(l, "      ") {
+				continue // file:line rows
+			}
+			fn := strings.TrimSpace(l)
+			if k := strings.LastIndex(fn, "("); k > 0 {
+				fn = fn[:k]
+			}
+			if strings.HasPrefix(fn, "runtime.") || strings.HasPrefix(fn, "verif/vrt.") || strings.HasPrefix(fn, "verif/vsync.") || strings.HasPrefix(fn, "internal/") || strings.HasPrefix(fn, "sync.") {
+				continue
+			}
+			if strings.Contains(fn, ".MapRange[") || strings.Contains(fn, ".Range[") {
+				continue // the runtime's iterator inlined into its caller
+			}
+			if k := strings.LastIndex(fn, "/"); k >= 0 {
+				fn = fn[k+1:]
+			}
+			out = append(out, fn)
+			break
+		}
+	}
+	return out
+}
 
 // runCompanion executes `<binary>-race --companion <variant> <n>`: the same
 // scenario bodies, natively (real sync, real goroutines), under -race.
@@ -463,13 +506,10 @@ func runCompanion(variant string, n int) compReport {
 	runErr := cmd.Run()
 	rep := compReport{Runs: n}
 	seen := map[string]bool{}
-	for _, m := range raceSite.FindAllStringSubmatch(eb.String(), -1) {
-		fn := m[1]
-		if k := strings.LastIndex(fn, "/"); k >= 0 {
-			fn = fn[k+1:]
-		}
+	for _, fn := range raceSites(eb.String()) {
 		if strings.HasPrefix(fn, "main.") {
-			continue // the harness's own deliberately unsynchronised observation of the options
+			rep.Harness++ // an access of the harness itself: a bug of this check, not of badwolf
+			continue
 		}
 		if !seen[fn] {
 			seen[fn] = true
